@@ -287,6 +287,16 @@ vf::Result check_unroll(const Prog& p) {
     } else {
         prog = gen_block(s, 0, 4096, true);
     }
+    vf::Stream sq(vf::mix64(p.seed ^ 0x1A7E));
+    const bool irq_variant = !p.big && sq.chance(1, 8);
+    if (irq_variant) { // the program starts with a single-instruction repeat
+        Item it;
+        it.kind = Item::Rep;
+        it.words = safe_instr(sq, true);
+        it.source = (unsigned)sq.below(3);
+        it.count = 1 + (unsigned)sq.below(30);
+        prog.insert(prog.begin(), it);
+    }
     // where the program lives: mostly page 0, otherwise high in program page 2 or 3 (which overlays data words 0xA000.. that the
     // bodies never touch), so that the loop frames carry all 18 address bits
     vf::Stream sb(vf::mix64(p.seed ^ 0xBA5E));
@@ -310,6 +320,14 @@ vf::Result check_unroll(const Prog& p) {
     }
     State st = program_state(s);
     st[flat::F_pc] = base;
+    // one case in eight (program starting with a repeat): an enabled interrupt request is already latched when the program starts.
+    // It is taken once the repeat has finished, not between `rep` and the instruction it repeats; its service routine just returns,
+    // so the looped and the unrolled program still end in the same state (one more instruction each: the reti)
+    const bool with_irq = irq_variant;
+    if (with_irq) {
+        st[flat::F_ie] = 1;
+        st[flat::F_im + 0] = 1;
+    }
     if (base != 0x1000) {
         desc += "@" + vf::hex(base) + " ";
         vf::klass("program in page " + std::to_string(base >> 16));
@@ -320,7 +338,11 @@ vf::Result check_unroll(const Prog& p) {
         c.opcode = code[0];
         c.expansion = code.size() > 1 ? code[1] : 0;
         c.more_code.assign(code.begin() + std::min<size_t>(2, code.size()), code.end());
-        c.cycles = (unsigned)cycles;
+        c.cycles = (unsigned)cycles + (with_irq ? 1 : 0);
+        if (with_irq) {
+            c.irq_mask = 1; // int0 requested before the first cycle
+            c.pokes.push_back({0x0006, W("reti(CondValue)", {0})});
+        }
         return sut().exec(c);
     };
     icase::IResult rl = run(lo, nl), ru = run(un, nu);
@@ -343,6 +365,15 @@ vf::Result check_unroll(const Prog& p) {
     a[flat::F_repc] = b[flat::F_repc] = 0;
     if (!(a == b))
         return vf::Result::fail("C09:unroll:state", "looped and unrolled programs end in different registers (looped vs unrolled) " + flat::diff(a, b) + " for " + desc);
+    if (with_irq) {
+        vf::klass("interrupt request latched when the leading repeat starts");
+        for (uint32_t a = 0x2F00 - 16; a < 0x2F00; ++a) { // the return address on the stack differs by construction
+            rl.writes.erase(0x20000 + a);
+            ru.writes.erase(0x20000 + a);
+        }
+        rl.writes.erase(0x0006);
+        ru.writes.erase(0x0006);
+    }
     if (desc.find("saverestore") != std::string::npos) {
         // the saved frames lie in the 16 words below the stack pointer: scratch, not part of the comparison
         vf::klass("loop frames saved and restored inside nested blocks");
